@@ -53,16 +53,26 @@ Advance(v) ==
   /\ got' = {} /\ calls' = 0
 
 \* the model actions a segment ending at this log entry must consist of, and where the model must be afterwards
+Own(p, as) == [j \in 1..Len(as) |-> [p |-> p, a |-> as[j]]]
+\* The mutex is released in the middle of a holder's last segment (publish / re-check hit, unlock, return), so a goroutine waiting for it
+\* can log intern.locked before the holder's "done" entry appears: the holder's steps up to the unlock then come first, silently.
+HolderFinishes(p) ==
+  IF lock = -1 \/ lock = p THEN <<>>
+  ELSE CASE pc[lock] = "recheck" -> Own(lock, <<"recheck", "unlock">>)
+         [] pc[lock] = "publish" -> Own(lock, <<"publish", "unlock">>)
+         [] pc[lock] = "unlock" -> Own(lock, <<"unlock">>)
+         [] OTHER -> <<>>
 Plan(e, p, pt) ==
   LET w == WordOf(e, p) IN
-  CASE pt = "intern.miss"    -> IF pc[p] = "idle" /\ w # <<>> THEN [acts |-> <<"call", "load", "lookup">>, exp |-> "lock"] ELSE [acts |-> <<>>, exp |-> "!"]
-    [] pt = "intern.locked"  -> IF pc[p] = "lock" THEN [acts |-> <<"lock">>, exp |-> "recheck"] ELSE [acts |-> <<>>, exp |-> "!"]
-    [] pt = "intern.publish" -> IF pc[p] = "recheck" THEN [acts |-> <<"recheck">>, exp |-> "publish"] ELSE [acts |-> <<>>, exp |-> "!"]
+  CASE pt = "intern.miss"    -> IF pc[p] = "idle" /\ w # <<>> THEN [acts |-> Own(p, <<"call", "load", "lookup">>), exp |-> "lock"] ELSE [acts |-> <<>>, exp |-> "!"]
+    [] pt = "intern.locked"  -> IF pc[p] = "lock" THEN [acts |-> HolderFinishes(p) \o Own(p, <<"lock">>), exp |-> "recheck"] ELSE [acts |-> <<>>, exp |-> "!"]
+    [] pt = "intern.publish" -> IF pc[p] = "recheck" THEN [acts |-> Own(p, <<"recheck">>), exp |-> "publish"] ELSE [acts |-> <<>>, exp |-> "!"]
     [] pt = "done" ->
          CASE pc[p] = "idle" /\ w = <<>> -> [acts |-> <<>>, exp |-> "idle"]                  \* an empty string is not on the wire: no Read
-           [] pc[p] = "idle" /\ w # <<>> -> [acts |-> <<"call", "load", "lookup", "ret">>, exp |-> "idle"]
-           [] pc[p] = "recheck" -> [acts |-> <<"recheck", "unlock", "ret">>, exp |-> "idle"]
-           [] pc[p] = "publish" -> [acts |-> <<"publish", "unlock", "ret">>, exp |-> "idle"]
+           [] pc[p] = "idle" /\ w # <<>> -> [acts |-> Own(p, <<"call", "load", "lookup", "ret">>), exp |-> "idle"]
+           [] pc[p] = "recheck" -> [acts |-> Own(p, <<"recheck", "unlock", "ret">>), exp |-> "idle"]
+           [] pc[p] = "publish" -> [acts |-> Own(p, <<"publish", "unlock", "ret">>), exp |-> "idle"]
+           [] pc[p] = "ret" -> [acts |-> Own(p, <<"ret">>), exp |-> "idle"]                  \* it had already released the lock (see HolderFinishes)
            [] OTHER -> [acts |-> <<>>, exp |-> "!"]
 
 \* Intern identifies the lock holder by process id and "free" by 0; here processes are 0..2, so free is -1
@@ -88,12 +98,12 @@ Can(a, p) ==
     [] a = "unlock" -> pc[p] = "unlock"
     [] a = "ret" -> pc[p] = "ret"
 
-Micro(e) == LET a == Head(todo) IN
+Micro(e) == LET a == Head(todo).a  q == Head(todo).p IN
   /\ UNCHANGED <<l, h, who, expect, bad>>
-  /\ IF Can(a, who)
-       THEN Act(a, who, WordOf(e, who)) /\ todo' = Tail(todo) /\ mism' = ""
+  /\ IF Can(a, q)
+       THEN Act(a, q, WordOf(e, q)) /\ todo' = Tail(todo) /\ mism' = ""
        ELSE /\ UNCHANGED ivars /\ todo' = <<>>
-            /\ mism' = PStr(who) \o ":" \o a \o "-impossible-in-the-model(pc=" \o pc[who] \o ",lock=" \o ToString(lock) \o ")@" \o ToString(h)
+            /\ mism' = PStr(q) \o ":" \o a \o "-impossible-in-the-model(pc=" \o pc[q] \o ",lock=" \o ToString(lock) \o ")@" \o ToString(h)
 
 Entry(e) == LET log == InternLog(e)  ev == log[h]  pl == Plan(e, ev.p, ev.point) IN
   /\ UNCHANGED <<ivars, l, bad>>
